@@ -29,6 +29,11 @@ def main():
     for i0 in ([-4, -3, 0, 7, 100] if Q else [-4, -3, -1, 0, 1, 7, 100, 4000]):
         for a in seg: cfgs.append(cfg(2, [a], fix0=1, i0=4096 + i0))
         cfgs.append(cfg(3, [seg[0], seg[1]], fix0=1, i0=4096 + i0))
+        # surplus markers on BOTH sides of the track at once (>= 2 at or before 0 and >= 2 beyond the end) needs >= 4 markers and ends in a
+        # two-marker result, which the symbolic-first-index runs exclude: covered here with a fixed first index (found with seeded change C20-2)
+        cfgs.append(cfg(4, [seg[0], seg[1], seg[0]], fix0=1, i0=4096 + i0))
+        cfgs.append(cfg(5, [seg[2], seg[0], seg[1]], fix0=1, i0=4096 + i0))
+        if not Q: cfgs.append(cfg(4, [seg[4], seg[3], seg[2]], fix0=1, i0=4096 + i0)); cfgs.append(cfg(5, [seg[1], seg[4], seg[0]], fix0=1, i0=4096 + i0))
     jobs = [dict(harness='h_beatgrid.cpp', ll=ll, entry='h_norm_arith', params=p, models=['exact_fp'], known=ck.known, must_reach=['called']) for p in cfgs]
     jobs.append(dict(harness='h_beatgrid.cpp', ll=ll, entry='h_norm_trivial', params={}, models=['exact_fp'], known=ck.known, must_reach=['called']))
     # listed known finding: demonstrated on the region the main runs exclude
@@ -38,7 +43,7 @@ def main():
     rs = run_jobs(jobs)
     ck.add_results(rs)
     if not ck.reach_summary().get('normalised'): ck.machinery.append('vacuity guard: no path normalised a grid')
-    ck.extra['bounds'] = {'grid_length': '0, 1 (trivial cases) and 2..4 markers%s' % ('' if Q else ' (thorough: same, larger tempo menu)'),
+    ck.extra['bounds'] = {'grid_length': '0, 1 (trivial cases) and 2..5 markers%s' % ('' if Q else ' (thorough: same, larger tempo menu)'),
                           'symbolic': 'sample count in [1, 2^24], first offset in [-2^24, 2^24], first index in [-4096, 4096] (or a run parameter for two-marker results)',
                           'menu': 'per-segment (index step, samples per beat) from %r' % (seg,),
                           'outside': 'non-integer offsets / tempi (the bracket, tempo and idempotence clauses do not hold for all doubles under IEEE rounding; the statement says "up to floating-point rounding"); '
